@@ -239,6 +239,55 @@ def epytext_tables() -> dict:
     return {'tags': tags_, 'escapes': esc, 'symbols': dict(cp)}
 
 
+def extract_fields_tables() -> dict:
+    """epydoc2stan.extract_fields: the tags it handles, the one that sets the type, the kind each of the others gives"""
+    from pydoctor import epydoc2stan, model
+    src = textwrap.dedent(inspect.getsource(epydoc2stan.extract_fields))
+    f = ast.parse(src).body[0]
+    body = strip_doc(f.body)
+    loop = body[-1]
+    need(isinstance(loop, ast.For) and same(loop.iter, 'parsed_doc.fields') and not loop.orelse, 'extract_fields: field loop')
+    need(len(loop.body) == 2 and same(loop.body[0], 'tag = field.tag()'), 'extract_fields: tag = field.tag()')
+    cond = loop.body[1]
+    need(isinstance(cond, ast.If) and not cond.orelse and isinstance(cond.test, ast.Compare) and len(cond.test.ops) == 1
+         and isinstance(cond.test.ops[0], ast.In) and same(cond.test.left, 'tag')
+         and isinstance(cond.test.comparators[0], ast.List), 'extract_fields: if tag in [...]')
+    tags = []
+    for e in cond.test.comparators[0].elts:
+        need(isinstance(e, ast.Constant) and isinstance(e.value, str), 'extract_fields: tag list element')
+        tags.append(e.value)
+    b = cond.body
+    need(same(b[0], 'arg = field.arg()'), 'extract_fields: arg = field.arg()')
+    need(same(b[1], '''
+if arg is None:
+    obj.report("Missing field name in @%s" % (tag,), 'docstring', field.lineno)
+    continue
+'''), 'extract_fields: missing-name report')
+    need(isinstance(b[2], ast.AnnAssign) and same(b[2].value, 'obj.contents.get(arg)'), 'extract_fields: obj.contents.get(arg)')
+    need(isinstance(b[3], ast.If) and same(b[3].test, 'attrobj is None')
+         and same(b[3].body[0], 'attrobj = obj.system.Attribute(obj.system, arg, obj)')
+         and same(b[3].body[-1], 'obj.system.addObject(attrobj)'), 'extract_fields: attribute creation')
+    need(same(b[-1], '''
+if tag == 'type':
+    attrobj.parsed_type = field.body()
+else:
+    attrobj.parsed_docstring = field.body()
+    attrobj.kind = field_name_to_kind[tag]
+'''), 'extract_fields: type / docstring assignment')
+    need('type' in tags, "extract_fields: 'type' not handled")
+    kinds = {}
+    codes = {model.DocumentableKind.INSTANCE_VARIABLE: 0, model.DocumentableKind.CLASS_VARIABLE: 1,
+             model.DocumentableKind.VARIABLE: 2}
+    for t in tags:
+        if t == 'type':
+            continue
+        need(t in epydoc2stan.field_name_to_kind, 'extract_fields: no kind for @%s' % t)
+        k = epydoc2stan.field_name_to_kind[t]
+        need(k in codes, 'extract_fields: unknown kind %r' % k)
+        kinds[t] = codes[k]
+    return {'tags': tags, 'kinds': kinds}
+
+
 ELEMS = {'code': 'ECode', 'math': 'EMath', 'italic': 'EItalic', 'bold': 'EBold', 'uri': 'EUri', 'link': 'ELink',
          'escape': 'EEscape', 'symbol': 'ESymbol'}
 
@@ -250,6 +299,11 @@ def generate() -> dict:
     sp = py_space()
     doctest_pins()
     ep = epytext_tables()
+    xf = extract_fields_tables()
+    from pydoctor.epydoc.markup import restructuredtext as R
+    need(isinstance(R.CONSOLIDATED_FIELDS, dict) and all(isinstance(k, str) and isinstance(v, str) for k, v in R.CONSOLIDATED_FIELDS.items()), 'CONSOLIDATED_FIELDS')
+    need(isinstance(R.CONSOLIDATED_DEFLIST_FIELDS, list), 'CONSOLIDATED_DEFLIST_FIELDS')
+    need(R._SplitFieldsTranslator.ALLOW_UNMARKED_ARG_IN_CONSOLIDATED_FIELD is True, 'ALLOW_UNMARKED_ARG_IN_CONSOLIDATED_FIELD')
     L: List[str] = []
     L.append('From Coq Require Import NArith List.')
     L.append('From PydoctorVerif Require Import Base.Sexp Model.FieldTypes.')
@@ -279,6 +333,18 @@ def generate() -> dict:
     L.append('Definition epy_symbols : list (text * N) := [')
     L.append(';\n'.join('  (%s, %d)' % (coq_text(k), v) for k, v in sorted(ep['symbols'].items())))
     L.append('].')
+    L.append('')
+    L.append('(* epydoc2stan.extract_fields: `if tag in [...]`, and field_name_to_kind (0 instance / 1 class / 2 module variable) *)')
+    L.append('Definition extract_tags : list text := [%s].' % '; '.join(coq_text(t) for t in xf['tags']))
+    L.append('Definition extract_type_tag : text := %s.' % coq_text('type'))
+    L.append('Definition extract_kinds : list (text * N) := [%s].'
+             % '; '.join('(%s, %d)' % (coq_text(t), k) for t, k in xf['kinds'].items()))
+    L.append('')
+    L.append('(* restructuredtext.CONSOLIDATED_FIELDS (list tag -> entry tag, dict order) and CONSOLIDATED_DEFLIST_FIELDS *)')
+    L.append('Definition consolidated_fields : list (text * text) := [%s].'
+             % '; '.join('(%s, %s)' % (coq_text(k), coq_text(v)) for k, v in R.CONSOLIDATED_FIELDS.items()))
+    L.append('Definition consolidated_deflist_fields : list text := [%s].'
+             % '; '.join(coq_text(k) for k in R.CONSOLIDATED_DEFLIST_FIELDS))
     return {'TablesC09.v': '\n'.join(L) + '\n'}
 
 
